@@ -17,7 +17,7 @@ import (
 
 func init() {
 	Registry["C15"] = Set{
-		Explanation: "Decides structural clauses of remote access control: H1 in every handshake role (Start, Accept incl. its Join branch, Join) each success return is dominated by a digest comparison whose mismatch edge fails and whose expected value depends both on the cookie and on a nonce generated locally in this invocation (value provenance through the hash object's Write/Sum state and fmt.Sprintf arguments) — a comparison without a local nonce accepts a replayed transcript; H2 the effective cookie reaches the handshake: the Cookie of the options passed to Accept/Start/Join may-flow (field-based heap flow) from the acceptor's / route's own cookie option and from the node cookie as fallback; H3 the Peer* fields of the handshake result originate from the peer's decoded Introduce and the Node* fields from the local options, field for field, in both roles, and the dialler compares the introduced name with the name it dialled; H4 NetworkFlags.MarshalEDF/UnmarshalEDF use the same bit for each field; H5 a remote spawn / application start is served only after the permission lookup for (name, authenticated peer name) succeeded, and both ends test the corresponding flag before sending/serving; H6 the requester's environment is copied into a request bound for another node only under the corresponding ExposeEnv* security option. Added while probing: H1 counts the cookie only as a direct input of the compared digest (a digest of the cookie that was sent to the peer is public). H2b the node cookie overwrites an endpoint's own cookie only on the edge that found it empty; H5 the capability flags are evaluated path-sensitively (effect unreachable under {Enable, !capability}, reachable under {Enable, capability}), the permission check is made in the name of the connection's peer, and Enable*/Disable* record true/false for each named node (sibling agreement of the four table writers). H1 also: a message carrying a digest of (peer-chosen input, cookie) is written only behind the match edge of a cookie-dependent digest check of that peer (no digest oracle for an unauthenticated peer). H7 the flags given to handshake.Accept may-flow from the acceptor's own flags and from the node's configured flags; H7b in the loop over explicitly configured acceptors every option that has a node-level counterpart (Flags, MaxMessageSize) is completed from the node's options (shape-dependent: moving the defaulting elsewhere needs the rule to follow).",
+		Explanation: "Decides structural clauses of remote access control: H1 in every handshake role (Start, Accept incl. its Join branch, Join) each success return is dominated by a digest comparison whose mismatch edge fails and whose expected value depends both on the cookie and on a nonce generated locally in this invocation (value provenance through the hash object's Write/Sum state and fmt.Sprintf arguments) — a comparison without a local nonce accepts a replayed transcript; H2 the effective cookie reaches the handshake: the Cookie of the options passed to Accept/Start/Join may-flow (field-based heap flow) from the acceptor's / route's own cookie option and from the node cookie as fallback; H3 the Peer* fields of the handshake result originate from the peer's decoded Introduce and the Node* fields from the local options, field for field, in both roles, and the dialler compares the introduced name with the name it dialled; H4 NetworkFlags.MarshalEDF/UnmarshalEDF use the same bit for each field; H5 a remote spawn / application start is served only after the permission lookup for (name, authenticated peer name) succeeded, and both ends test the corresponding flag before sending/serving; H6 the requester's environment is copied into a request bound for another node only under the corresponding ExposeEnv* security option. Added while probing: H1 counts the cookie only as a direct input of the compared digest (a digest of the cookie that was sent to the peer is public). H2b the node cookie overwrites an endpoint's own cookie only on the edge that found it empty; H5 the capability flags are evaluated path-sensitively (effect unreachable under {Enable, !capability}, reachable under {Enable, capability}), the permission check is made in the name of the connection's peer, and Enable*/Disable* record true/false for each named node (sibling agreement of the four table writers). H1 also: a message carrying a digest of (peer-chosen input, cookie) is written only behind the match edge of a cookie-dependent digest check of that peer (no digest oracle for an unauthenticated peer). H7 the flags given to handshake.Accept may-flow from the acceptor's own flags and from the node's configured flags; H7b in the loop over explicitly configured acceptors every option that has a node-level counterpart (Flags, MaxMessageSize) is completed from the node's options (shape-dependent: moving the defaulting elsewhere needs the rule to follow). H8 the connection constructor refuses a handshake result whose PeerCreation is zero (the result of a Join, which has no Hello/Introduce exchange and can be replayed) before it builds the connection.",
 		NotDecided: []string{
 			"cryptographic strength of the digest construction, TLS",
 			"enable/disable histories of the permission tables at run time (decided: the lookup dominates the effect, is made for the peer's name, Enable* records true and Disable* records false)",
@@ -37,6 +37,7 @@ func runC15(p *load.Program, r *core.Report) {
 	c15Permissions(p, r)
 	c15CookieOverride(p, r)
 	c15Env(p, r)
+	c15NoConnectionFromJoin(p, r)
 }
 
 // provenance tags of a value: "cookie", "nonce", "peer", "local"
@@ -1288,5 +1289,76 @@ func c15AcceptorDefaults(p *load.Program, r *core.Report) {
 			}
 			r.Bad(rule, key, fn, p.Pos(f.Pos()), inst, why)
 		}
+	}
+}
+
+// c15NoConnectionFromJoin: H8 — a Join handshake (an additional link for an EXISTING connection: one
+// message, no Hello/Introduce exchange, no fresh nonce of the acceptor) yields a result without the
+// peer's creation, flags and limits. When the connection it refers to is gone, the acceptor falls
+// through to NewConnection; that function must refuse such a result — the test of
+// result.PeerCreation against zero whose zero edge returns an error dominates the construction of
+// the connection. (A Join can be recorded and replayed by someone who does not know the cookie: a
+// connection built from it has creation 0, no flags — so no spawn/application-start restrictions —
+// and no size limits.)
+func c15NoConnectionFromJoin(p *load.Program, r *core.Report) {
+	rule := "C15.H8 no-connection-from-a-join-result"
+	r.Floor(rule, 1)
+	f := p.Func("net/proto", "enp", "NewConnection")
+	if f == nil {
+		r.Unk(rule, "C15.H8|NewConnection", "", "", "the connection constructor is found", "not found")
+		return
+	}
+	fn := fname(f)
+	key := "C15.H8|" + fn
+	inst := "a handshake result without the peer's creation (a Join) is refused before the connection is built"
+	var build ssa.Instruction
+	eachInstr(f, func(in ssa.Instruction) {
+		if al, ok := in.(*ssa.Alloc); ok && al.Heap && strings.HasSuffix(al.Type().String(), "proto.connection") {
+			build = in
+		}
+	})
+	if build == nil {
+		r.Unk(rule, key, fn, p.Pos(f.Pos()), inst, "the construction of the connection is not found")
+		return
+	}
+	ok := false
+	eachInstr(f, func(in ssa.Instruction) {
+		b, isB := in.(*ssa.BinOp)
+		if !isB || (b.Op != token.EQL && b.Op != token.NEQ) {
+			return
+		}
+		c, isC := constInt(b.Y)
+		if !isC || c != 0 {
+			return
+		}
+		if _, path, okp := fieldPath(b.X); !okp || len(path) == 0 || path[len(path)-1] != "PeerCreation" {
+			return
+		}
+		t, fl, complete := boolEdges(b)
+		if !complete {
+			return
+		}
+		zero, nonzero := t, fl
+		if b.Op == token.NEQ {
+			zero, nonzero = fl, t
+		}
+		if !edgesDominate(nonzero, build) {
+			return
+		}
+		idx := errResultIndex(f)
+		for _, rt := range walkAvoid(edgePoints(zero), nil, isReturn) {
+			if idx >= 0 && errKind(rt.(*ssa.Return).Results[idx]) == "nil" {
+				return
+			}
+		}
+		if reaches(edgePoints(zero), nil, func(x ssa.Instruction) bool { return x == build }) != nil {
+			return
+		}
+		ok = true
+	})
+	if ok {
+		r.OK(rule, key, fn, p.Pos(build.Pos()), inst, "PeerCreation == 0 returns an error; the non-zero edge dominates the construction")
+	} else {
+		r.Bad(rule, key, fn, p.Pos(build.Pos()), inst, "no test of result.PeerCreation against zero guards the construction: a (replayed) Join that arrives while the named peer has no connection registers a full connection with creation 0, no flags and no limits, without any Hello/Introduce exchange")
 	}
 }
